@@ -1253,8 +1253,30 @@ def rule_F6(prog):
                     break
             r.find(fn.path, "sibling-loops", "the old-side and new-side halves of IdentifyDistinct::new differ (after renaming "
                    "old<->new) near `%s` vs `%s`" % (sa[max(0, i - 40):i + 40], sb[max(0, i - 40):i + 40]),
-                   file=fn.file, line=line)
+                   file=fn.file, line=line, undecided=_twin_undecided(olds, news))
     return r
+
+
+def _vocab(node):
+    """The vocabulary of a piece of code: the methods and functions it calls and the kinds of control constructs it uses
+    (sides erased).  Two twins that are written in different vocabularies (one restyled with `get_mut().filter()`,
+    iterator adapters, `or_insert_with` ..) cannot be compared by a normal form: the twin rule is then UNDECIDED."""
+    out = set()
+    def ren(x):
+        return re.sub(r"(?i)(old|new)", "X", str(x))
+    for n in find_nodes(node, lambda n: n.get("k") in ("mcall", "call", "closure", "match", "loop", "if", "letx")):
+        k = n["k"]
+        if k == "mcall":
+            out.add("m:" + ren(n["name"]))
+        elif k == "call":
+            out.add("c:" + ren(origin(n["f"]).rsplit("::", 1)[-1]))
+        elif k in ("closure", "match", "loop"):
+            out.add("k:" + k)
+    return out
+
+
+def _twin_undecided(a_node, b_node):
+    return _vocab(a_node) != _vocab(b_node)
 
 
 # ---------------------------------------------------------------- F7
@@ -1553,6 +1575,10 @@ def rule_F8(prog):
                         if ("iter_changes" in x2 and "is #1" in x2) or "newline_terminated" in x2 or "missing_newline" in x2 or \
                                 ("next(" in x2 and "is #1" in x2):
                             continue
+                        # a helper that is handed nothing but `self` and the line at hand classifies that line
+                        # (`match self.line_ending(&change) { .. }`): line-local by construction
+                        if re.match(r"^!?[\w:]+\(&?\*?self, &?next\(&(mut )?into_iter\([\w\.\(\)&\* ]+\)\) as Some\.0\) is #\d+$", x2):
+                            continue
                         bad.append((x, s_))
                 r.instances += 1
                 r.ob(not bad, "UnifiedDiffHunk %s: per-line output guarded by line-local conditions only: %s" % (label, not bad))
@@ -1580,12 +1606,15 @@ def rule_F8(prog):
                 r.ob(good, "UnifiedDiff %s: file header guarded by (a hunk exists) and (header.take() is Some): %s" % (label, good))
                 if not good:
                     f_ = d if label == "Display" else w
+                    # no write event recognised at all (the loop became a closure, an iterator pairing ..): the rule has
+                    # lost its anchor in this function -- undecided, not a violation
                     r.find(f_.path, "header-guard", "UnifiedDiff %s must write the file header inside the hunk loop under "
                            "header.take() (once, before the first hunk, never without hunks); events: %s" % (label, canon(ev)),
-                           file=f_.file, line=f_.line)
+                           file=f_.file, line=f_.line, undecided=(not ev))
         if not ok:
             r.find(w.path, "siblings-differ", "%s::to_writer and its Display impl differ: Display emits %s, to_writer emits %s "
-                   "(guard, template)" % (head.rsplit("::", 1)[-1], cd, cw), file=w.file, line=w.line)
+                   "(guard, template)" % (head.rsplit("::", 1)[-1], cd, cw), file=w.file, line=w.line,
+                   undecided=(not cd and not cw))
     return r
 
 
@@ -1788,6 +1817,23 @@ def origin_deep(e, lets, depth=0):
         return "%s[%s]" % (origin_deep(e["base"], lets, depth + 1), origin_deep(e["idx"], lets, depth + 1))
     if k == "binary":
         return "(%s%s%s)" % (origin_deep(e["l"], lets, depth + 1), e["op"], origin_deep(e["r"], lets, depth + 1))
+    if k == "match" and len(e.get("arms", [])) == 2:
+        # `match opt { Some(x) => x, None => d }` is `opt.unwrap_or(d)`
+        some = none = None
+        for a in e["arms"]:
+            p_ = a["pat"]
+            if a.get("guard") is not None:
+                some = none = None
+                break
+            pth = (p_.get("res") or {}).get("path", "")
+            if p_.get("k") == "tuplestruct" and pth.endswith("Some") and len(p_.get("pats", [])) == 1 and p_["pats"][0].get("k") == "bind":
+                b_ = unwrap(a["body"])
+                if isinstance(b_, dict) and b_.get("k") == "path" and b_.get("res", {}).get("id") == p_["pats"][0]["id"]:
+                    some = a
+            elif (p_.get("k") in ("expr", "path", "struct", "tuplestruct") and pth.endswith("None")) or p_.get("k") == "wild":
+                none = a
+        if some is not None and none is not None:
+            return "%s.unwrap_or(%s)" % (origin_deep(e["scrut"], lets, depth + 1), origin_deep(none["body"], lets, depth + 1))
     if k == "call":
         pass
     o = origin(e)
@@ -1803,6 +1849,8 @@ def _norm_ranges(o):
     """`x.as_tag_tuple().1` is `x.old_range()`, `.2` is `x.new_range()`."""
     o = re.sub(r"\.as_tag_tuple\(\)\.1\b", ".old_range()", o)
     o = re.sub(r"\.as_tag_tuple\(\)\.2\b", ".new_range()", o)
+    # `DiffOp::old_range(x)` (a method used as a function value) is `x.old_range()`
+    o = re.sub(r"(?:\w+::)*DiffOp::(old_range|new_range)\(&?([\w\[\]\.\(\)\-\+: ]+?)\)(?=\.|$)", r"\2.\1()", o)
     return o
 
 
@@ -1826,6 +1874,22 @@ def _hunk_range_parts(prog, e, lets, depth=0):
         res = (f.get("res") or {}) if isinstance(f, dict) and f.get("k") == "path" else {}
         if res.get("dk", "").startswith("Ctor") and res.get("path", "").endswith("UnifiedDiffHunkRange") and len(e["args"]) == 2:
             return tuple(_norm_ranges(origin_deep(a, lets)) for a in e["args"])
+        # a local closure (`let span = |range_of: fn(&DiffOp) -> Range<usize>| UnifiedDiffHunkRange(range_of(first).start, ..)`)
+        if res.get("k") == "local" and res.get("id") in lets:
+            cl = unwrap(lets[res["id"]])
+            if isinstance(cl, dict) and cl.get("k") == "closure" and len(cl.get("params", [])) == len(e["args"]) and \
+                    all(pp.get("k") == "bind" for pp in cl["params"]):
+                amap = {pp["id"]: a for pp, a in zip(cl["params"], e["args"])}
+
+                def sub(n):
+                    if isinstance(n, dict):
+                        if n.get("k") == "path" and n.get("res", {}).get("k") == "local" and n["res"]["id"] in amap:
+                            return amap[n["res"]["id"]]
+                        return {k_: sub(v) for k_, v in n.items()}
+                    if isinstance(n, list):
+                        return [sub(x) for x in n]
+                    return n
+                return _hunk_range_parts(prog, sub(cl["body"]), lets, depth + 1)
         g = prog.fn(res.get("path", "")) if res.get("path") else None
         if g is None and res.get("path"):
             cands = [c for c in prog.find(res["path"]) if c.hir]
@@ -2024,7 +2088,8 @@ def rule_F12(prog):
             fnb = pair["tokenize_lines_and_newlines"]
             r.find(fnb.path, "twins-differ:%s" % head, "%s: tokenize_words and tokenize_lines_and_newlines differ beyond the "
                    "character-class test, near `%s` vs `%s`" % (head, a[max(0, i - 60):i + 40], b[max(0, i - 60):i + 40]),
-                   file=fnb.file, line=fnb.line)
+                   file=fnb.file, line=fnb.line,
+                   undecided=_twin_undecided(pair["tokenize_words"].hir["body"], fnb.hir["body"]))
     return r
 
 
@@ -2252,7 +2317,8 @@ def rule_F16(prog):
         if not ok:
             i = next((i for i, (x, y) in enumerate(zip(a, b)) if x != y), min(len(a), len(b)))
             r.find(fn.path, "twin-arms", "the (Insert, Equal) and (Delete, Equal) arms of shift_diff_ops_down differ near `%s` vs `%s`" % (
-                a[max(0, i - 50):i + 50], b[max(0, i - 50):i + 50]), file=fn.file, line=arms["Insert"]["pat"].get("line", fn.line))
+                a[max(0, i - 50):i + 50], b[max(0, i - 50):i + 50]), file=fn.file, line=arms["Insert"]["pat"].get("line", fn.line),
+                undecided=_twin_undecided(arms["Insert"]["body"], arms["Delete"]["body"]))
     # the same two arms of the slide-up function: identical except for the length of the Equal op they may create (the
     # Delete arm's length expression is the reviewed dead code of spec.EXCEPTIONS)
     for fn in prog.find("algorithms::compact::shift_diff_ops_up"):
@@ -2272,7 +2338,8 @@ def rule_F16(prog):
             r.find(fn.path, "twin-arms-up", "the (Insert, Equal) and (Delete, Equal) arms of shift_diff_ops_up differ (beyond the length "
                    "of the Equal op they create) near `%s` vs `%s`: both slide a change over the same equal run and must take "
                    "the old position from the equal run above and the new position from the change" % (
-                       a[max(0, i - 50):i + 50], b[max(0, i - 50):i + 50]), file=fn.file, line=arms["Insert"]["pat"].get("line", fn.line))
+                       a[max(0, i - 50):i + 50], b[max(0, i - 50):i + 50]), file=fn.file, line=arms["Insert"]["pat"].get("line", fn.line),
+                   undecided=_twin_undecided(arms["Insert"]["body"], arms["Delete"]["body"]))
     return r
 
 
@@ -2353,11 +2420,16 @@ def rule_F15(prog):
         m = fn.mir
         problems = []
         vac = occ_none = 0
-        for bb, t in m.calls():
+        # the body and its closures (`range.fold(HashMap::new(), |mut by_item, index| { by_item.entry(..)..; by_item })`)
+        all_bodies = [fn.mir] + [g.mir for g in prog.fn_list if g.kind == "Closure" and g.mir and g.path.startswith(fn.path + "::{closure")]
+        for m, (bb, t) in [(mm_, ct) for mm_ in all_bodies for ct in mm_.calls()]:
             c = m.callee(t)
             if not c:
                 continue
             p = c["path"]
+            if p == "std::option::Option::<T>::take" and m is not fn.mir:
+                # `first_seen.take()` inside `and_modify(|first_seen| ..)`: the existing entry becomes None
+                occ_none += 1
             if p.startswith("std::collections::HashMap::") and p.rsplit("::", 1)[-1] == "insert":
                 v = m.expand(m.resolve_operand(t["args"][2])) if len(t["args"]) > 2 else None
                 if not payload_free(v):
@@ -2373,8 +2445,8 @@ def rule_F15(prog):
             if p.startswith("std::collections::hash_map::Entry") and p.rsplit("::", 1)[-1] in ("or_insert", "or_insert_with"):
                 vac += 1        # stores only when the entry is vacant
         # stores through a reference to an existing entry: in the body and in its closures (`and_modify(|v| *v = None)`)
-        bodies = [m] + [g.mir for g in prog.fn_list if g.kind == "Closure" and g.mir and g.path.startswith(fn.path + "::{closure")]
-        for mm in bodies:
+        m = fn.mir
+        for mm in all_bodies:
             for b in mm.blocks:
                 for s_ in b["stmts"]:
                     if s_["k"] == "assign" and "deref" in s_["p"]["proj"]:
@@ -2732,7 +2804,8 @@ def rule_F23(prog):
                 other = bl[[x != norms[0] for x in norms].index(True)]
                 r.find(fn.path, "tag-blocks-differ:%s" % tag, "the blocks of ChangesIter::next that yield a %s change differ near "
                        "`%s` vs `%s`: one of them advances the cursors / indices differently" % (
-                           tag, a[max(0, i - 50):i + 40], b[max(0, i - 50):i + 40]), file=fn.file, line=other.get("line", fn.line))
+                           tag, a[max(0, i - 50):i + 40], b[max(0, i - 50):i + 40]), file=fn.file, line=other.get("line", fn.line),
+                       undecided=_twin_undecided(bl[0], other))
     return r
 
 
@@ -3223,6 +3296,10 @@ def rule_F31(prog):
                         return False
                     if c.get("k") == "unary" and c.get("op") == "Not":
                         return zero_known(c["x"], not branch_is_then)
+                    if c.get("k") == "binary" and c["op"] == "&&" and branch_is_then:
+                        return zero_known(c["l"], True) or zero_known(c["r"], True)
+                    if c.get("k") == "binary" and c["op"] == "||" and not branch_is_then:
+                        return zero_known(c["l"], False) or zero_known(c["r"], False)
                     if c.get("k") == "binary" and c["op"] in (">", "<", ">=", "<=", "==", "!="):
                         l, rr = unwrap(c["l"]), unwrap(c["r"])
                         def lit(x):
